@@ -81,7 +81,18 @@ def run(tier, v):
     s2 = vlib.run_driver(h, "c12_streams", out2, {"streams": 40000 if quick else 800000, "shards": 32}, timeout=3000)
     cov["reader_streams"] = s2.get("streams", 0)
     cov["reader_stream_panics"] = s2.get("panics", 0)
+    # the scanners of the wrapper (trigger detection, zmodem headers, OSC 52 with its state across reads, dragged paths)
+    out3 = os.path.join(vlib.scratch(), "c12scanners")
+    s3 = vlib.run_driver(h, "c12_scanners", out3, {"streams": 400000 if quick else 6000000, "shards": 16}, timeout=3000)
+    cov["scanner_streams"] = s3.get("streams", 0)
+    cov["scanner_stream_panics"] = s3.get("panics", 0)
     import glob as _glob
+    for hf in sorted(_glob.glob(os.path.join(out3, "shard-*", "hits.json"))):
+        for hit in (json.load(open(hf)) or []):
+            site = re.sub(r"[^A-Za-z0-9 ]+", " ", hit.get("panic") or "")[:50].strip().replace(" ", "-")
+            v.violation("scanner-panic:%s:%s" % (hit["scanner"], site),
+                        "the %s scanner panicked on terminal bytes: %s -- stream %s reads %s" % (hit["scanner"], hit.get("panic"), hit["stream"][:300], hit["chunks"][:40]),
+                        {"scanner_hit": hit})
     for hf in sorted(_glob.glob(os.path.join(out2, "shard-*", "hits.json"))):
         for hit in (json.load(open(hf)) or []):
             what = "slow" if hit.get("slow") and not hit.get("panic") else "panic"
